@@ -79,7 +79,7 @@ def run(run):
     okb = len(sx) == 1 and len(sy) == 1 and norm_mid(sx[0].term[1][1]) == cen_x and norm_mid(sy[0].term[1][1]) == cen_y
     if okb:
         conds = [c for c in sx[0].pc if c[0] != "loop"]
-        okb = len(conds) == 1 and conds[0][1] is True and conds[0][0][0] == "op" and conds[0][0][1] == "cmp:Eq" and num_value(conds[0][0][2][1]) == 1
+        okb = len(conds) == 1 and conds[0][1] is True and conds[0][0][0] == "op" and conds[0][0][1] == "cmp:Eq" and 1 in [num_value(x) for x in conds[0][0][2]]
     if okb:
         run.holds("C05.R1", f, sx[0].node, "base case (n == 1): x <- lon, y <- lat of the diagonal midpoint for the tile's orientation")
     else:
